@@ -101,6 +101,20 @@ def showBefpFields (p : RawBefp) : String :=
   p.shares.foldl (fun acc s =>
     acc ++ s!" sh={toHexOrDash s.data}/{showRawProofSlash s.proof}/{u32OfI32 s.proofAxis}") base
 
+def parseBefpRaw (ws : List String) : Option RawBefp :=
+  match hexArg? ws "hash", natArg? ws "height", natArg? ws "index", natArg? ws "axis",
+        (allArgs ws "sh").mapM parseBefpWord with
+  | some hash, some height, some index, some axis, some shares => some ⟨hash, height, shares, index, i32OfU32 axis⟩
+  | _, _, _, _, _ => none
+
+/-- a stand-in for prost in the model's JSON layer of fraud proofs: the canonical field line as UTF-8 bytes
+    (any encoder with a left inverse would do; the real prost bytes are exercised on the implementation side) -/
+def lineCodec : PbCodec :=
+  { enc := fun r => (showBefpFields r).toUTF8.toList
+    dec := fun bs => (String.fromUTF8? (ByteArray.mk bs.toArray)).bind (fun s => parseBefpRaw (words s)) }
+
+def sameBefp (a b : BefpFull) : Bool := showBefpFields (befpToRaw a) == showBefpFields (befpToRaw b)
+
 def showRanges (rs : List (Nat × Nat)) : String :=
   if rs.isEmpty then "-" else ";".intercalate (rs.map (fun r => s!"{r.1}-{r.2}"))
 
@@ -321,20 +335,36 @@ def step (_ : Unit) (line : String) : Unit × String :=
             s!"ok raw={semi (showShareProofFields (shareProofToRaw p))} pb={f} json={f}"
       | _, _, _, _, _ => "bad-op"
     | "befp" :: _ =>
-      match hexArg? ws "hash", natArg? ws "height", natArg? ws "index", natArg? ws "axis",
-            (allArgs ws "sh").mapM parseBefpWord with
-      | some hash, some height, some index, some axis, some shares =>
-        match befpFromRawFull ⟨hash, height, shares, index, i32OfU32 axis⟩ with
+      match parseBefpRaw ws with
+      | none => "bad-op"
+      | some rawIn =>
+        match befpFromRawFull rawIn with
         | none => "err-decode"
         | some p =>
           let raw := befpToRaw p
           let f := match befpFromRawFull raw with
-            | some q => if (befpToRaw q).headerHash == raw.headerHash && (befpToRaw q).height == raw.height
-                          && (befpToRaw q).index == raw.index && (befpToRaw q).axis == raw.axis
-                          && showBefpFields (befpToRaw q) == showBefpFields raw then "same" else "diff"
+            | some q => if sameBefp q p then "same" else "diff"
             | none => "err"
-          s!"ok raw={semi (showBefpFields raw)} pb={f} json=-"
-      | _, _, _, _, _ => "bad-op"
+          -- the JSON form: `Proof::BadEncoding(p)` -> RawFraudProof -> { proof_type, base64(data) } and back
+          let j := fraudToJson lineCodec p
+          let fj := match fraudFromJson lineCodec j with
+            | some q => if sameBefp q p then "same" else "diff"
+            | none => "err"
+          let jd := if Namespace.b64Decode j.data == some (lineCodec.enc raw) then "same" else "diff"
+          s!"ok raw={semi (showBefpFields raw)} pb={f} json={fj} jtype={j.proofType} jdata={jd}"
+    | "fraudjson" :: _ =>
+      match arg? ws "type", parseBefpRaw ws with
+      | some ty, some rawIn =>
+        let ty := if ty == "-" then "" else ty
+        let j : JsonFraudProof := ⟨ty, Namespace.b64Encode (lineCodec.enc rawIn)⟩
+        match fraudFromJson lineCodec j with
+        | none => "err-decode"
+        | some p =>
+          let fj := match fraudFromJson lineCodec (fraudToJson lineCodec p) with
+            | some q => if sameBefp q p then "same" else "diff"
+            | none => "err"
+          s!"ok raw={semi (showBefpFields (befpToRaw p))} json={fj}"
+      | _, _ => "bad-op"
     | "ranges" :: _ =>
       match (arg? ws "v").bind parseRanges with
       | none => "bad-op"
@@ -362,26 +392,34 @@ def spec (_ : Unit) (op : String) (obs : String) : String :=
     else if res == "err-decode" || res == "bad-op" then "specskip"      -- not a valid value of the type
     else if res != "ok" then "specfail C46/unparsed"
     else
-      let check (key : String) : Option Bool :=
-        match arg? os key with
-        | none => some true
-        | some w => if w == "-" then some true else (Lumina.Spec.C46.parseObs w).map Lumina.Spec.C46.specOK
       let parity := opn == "share" && natArg? ws "parity" == some 1
-      let forms := ["conv", "pb", "json"]
-      let bad := forms.filter (fun k =>
+      -- the forms every kind of value must have been taken through (a missing or `-` word is a failure)
+      let required : List String :=
+        if opn == "share" || opn == "nsproof" || opn == "nmtproof" || opn == "blobv" then ["conv", "pb", "json"]
+        else if opn == "dah" || opn == "rowproof" || opn == "shareproof" || opn == "befp" || opn == "blob"
+                || opn == "blobraw" || opn == "eh" then ["pb", "json"]
+        else if opn == "ns" || opn == "merkle" || opn == "ranges" || opn == "fraudjson" || opn == "blobjson" then ["json"]
+        else []
+      let formOf (k : String) : Lumina.Spec.C46.Form := if k == "json" then .json else .protobuf
+      let bad := (required ++ (["conv", "pb", "json"].filter (fun k => !required.contains k))).filter (fun k =>
         match arg? os k with
-        | none => false
-        | some w => if w == "-" then false else
+        | none => required.contains k
+        | some w =>
+          if w == "-" then required.contains k else
           match Lumina.Spec.C46.parseObs w with
-          | some o => if opn == "share" then !Lumina.Spec.C46.specShareOK parity o else !Lumina.Spec.C46.specOK o
+          | some o => if opn == "share" then !Lumina.Spec.C46.specShareOK parity (formOf k) o else !Lumina.Spec.C46.specOK o
           | none => true)
-      let _ := check
+      -- the JSON form of a fraud proof also has to carry the one type tag and the protobuf payload
+      let bad := if opn == "befp" && (arg? os "jtype" != some "badencoding" || arg? os "jdata" != some "same")
+                 then bad ++ ["jsonfields"] else bad
       if bad.isEmpty then "specok"
       else
         -- fingerprints of the two wire-format findings, everything else by type and form
         let absent := natArg? ws "absent"
         let ign := natArg? ws "ign"
-        if (opn == "nsproof" || opn == "nmtproof") && absent == some 2 then
+        if opn == "share" && parity && !bad.contains "json" then
+          "specfail C46/share-parity-not-on-protobuf shwap.Share / RawShare carry no parity flag: a parity share comes back from the protobuf form as a data share (or is refused)"
+        else if (opn == "nsproof" || opn == "nmtproof") && absent == some 2 then
           s!"specfail C46/nsproof-absence-without-leaf the {opn} forms cannot carry an absence proof without a leaf"
         else if opn == "nmtproof" && ign == some 0 then
           "specfail C46/nmtproof-ignore-max-ns-not-on-wire NMTProof has no is_max_namespace_ignored field"
